@@ -227,4 +227,8 @@ def check(model: Model, tier: str):
     obs += rule_scale_free(model, "_amen._amen_mm_python")
     obs += rule_scale_free(model, "_dmrg.dmrg_matvec_python")
     obs += rule_scale_free(model, "_dmrg.dmrg_hadamard_python")
+    from ..normguard import rule_qr_rank
+    obs += rule_qr_rank(model, '_dmrg.dmrg_matvec_python')
+    obs += rule_qr_rank(model, '_dmrg.dmrg_hadamard_python')
+    obs += rule_qr_rank(model, '_amen._amen_mm_python')
     return obs, {"functions": ANCHORS}
